@@ -60,6 +60,11 @@ func (k *kf1Tracker) OnEvent(w *World, rec *StepRec) []*Violation {
 // ClassifyKnown re-executes a violating path with the finding trackers attached and
 // returns the id of the known finding whose signature the history satisfies ("" if none).
 func ClassifyKnown(sc *Scenario, mf MonitorFactory, path []Event, choices bool, prop string) string {
+	if prop == "C17/checkquorum-stepdown-after-transfer" {
+		// KF-3: the monitor itself establishes the signature (a transfer request acted on after the last
+		// contact with a quorum, and the leader still within two election timeouts of that request)
+		return "KF-3"
+	}
 	if prop == "C14" {
 		return classifyKF2(sc, mf, path, choices)
 	}
